@@ -13,7 +13,7 @@ import argparse, fcntl, hashlib, json, os, re, subprocess, sys, time
 VERIF = os.path.dirname(os.path.dirname(os.path.abspath(__file__)))
 REPO = os.environ.get("VERIF_REPO", "/repo")
 HARNESS = os.path.join(VERIF, "harness")
-LEAN = os.path.join(VERIF, "lean")
+LEAN = os.environ.get("VERIF_LEAN_DIR", os.path.join(VERIF, "lean"))
 GEN = os.path.join(LEAN, "OwlModel", "Gen")
 WORK = os.path.join(VERIF, "work")
 ALLOWED_AXIOMS = {"propext", "Quot.sound", "Classical.choice"}
@@ -354,9 +354,10 @@ def main():
         return 0
 
     # ---- 3. cases: corpus first, then generated
+    # model-drift sentinel: a modelled function changed (or an obligation broke) -> look four times as wide
     escalate = bool(stale) or bool(obligation_broken)
-    gen_tier = "thorough" if (tier == "thorough" or escalate) else "quick"
-    scale = cfg.get("scale", {}).get(gen_tier, 1.0)
+    gen_tier = "thorough" if tier == "thorough" else "quick"
+    scale = cfg.get("scale", {}).get(gen_tier, 1.0) * (4.0 if (escalate and tier != "thorough") else 1.0)
     cases = corpus_cases(prop)
     n_corpus = len(cases)
     stats = {}
